@@ -262,6 +262,14 @@ class VariableSetProcessor(Collector):
         """
         return self.__var_cache.new_var_id(identity_hash_id)
 
+    def hold(self, value):
+        """
+        Keep a value alive for as long as its identity is cached.
+
+        :param value: the value whose identity was entered into the cache
+        """
+        self.__var_cache.hold(value)
+
     def append_variable(self, var_id, variable):
         """
         Append a variable to the var lookup.
